@@ -3,6 +3,7 @@ import MoneroModel.Proofs.GroupInstance
 import MoneroModel.Proofs.EdwardsLawful
 import MoneroModel.Proofs.EdwardsTorsion8
 import MoneroModel.Proofs.GroupRefine
+import MoneroModel.Proofs.GroupRefineScan
 /-! C10 — "Key derivation is Monero's cofactor-cleared Diffie-Hellman for every curve point".
 About the model `Monero.derive` / `Monero.oneTimeKey` (Model/Crypto.lean: `KeyGenerator::{from_key, from_random, one_time_key,
 get_rvn_scalar}` at HEAD of /repo, i.e. after the fix commit) and the by-the-book sender `Spec.Sender`. Every theorem holds
@@ -13,8 +14,13 @@ namespace C10
 open Monero
 variable {P : Type} [AddCommGroup P] {ops : CryptoOps P}
 
-/-- the hypotheses are satisfiable: Z/(8l) with base point 8 is lawful -/
+/-- the hypotheses are satisfiable: Z/(8l) with base point 8 is lawful. CAUTION: in this toy instance `keccak = fun _ => []`, so every
+hash-dependent quantity is degenerate there (`hsOf = 0`, `oneTimeKey D S n = S`, `viewTagOf = 0`); it witnesses the GROUP hypotheses
+and carries the counterexample `C10_scalar8_counterexample`, nothing more. The witness with the real Keccak-256 and the real curve
+(points outside the `l`-torsion included) is the next example; the `_ed25519` theorems below are the theorems of this file on it. -/
 example : Lawful zmodOps := zmodOps_lawful
+/-- … and Ed25519 itself with Keccak-256 is lawful (Proofs/EdwardsLawful.lean) -/
+example : Lawful Monero.Edw.edOps := Monero.Edw.edOps_lawful
 
 /-- the derivation computed from a scalar `a` and ANY point `B` is `8•(a•B)`, and it is the specification's
 `generate_key_derivation` (scalar multiple, then three doublings) -/
@@ -59,7 +65,9 @@ theorem C10_onetime_recognised_primary (L : Lawful ops) (v r n : ℕ) (S : P) :
       = oneTimeKey ops (derive ops v (ops.smul r ops.base)) S n :=
   C10_onetime_recognised L v r n (Spec.Sender.primaryDest (specPrims ops) v S) (L.smul_eq v ops.base)
 
-/-- subaddress (V' = v•S', S'), transaction key R = r•S' -/
+/-- subaddress (V' = v•S', S'), transaction key R = r•S'. (Stated for every `(i, j)`; at `(0, 0)` `Spec.Sender.subDest` is the pair
+`(v•(S + m•G), S + m•G)`, which is NOT an address of the wallet — monero-rs and Monero return the primary keys there, see
+`Spec.Sender.destAt` / C11_zero_index — so that instance is true and irrelevant.) -/
 theorem C10_onetime_recognised_subaddress (L : Lawful ops) (v r n i j : ℕ) (S : P) :
     Spec.Sender.sendKey (specPrims ops) r (Spec.Sender.subDest (specPrims ops) v S i j) n
       = oneTimeKey ops (derive ops v (ops.smul r (Spec.Sender.subSpend (specPrims ops) v S i j)))
@@ -91,28 +99,43 @@ theorem C10_scalar8_counterexample :
   · show Ed.l - 1 < Ed.l; unfold Ed.l; omega
   · rw [zmodOps_lawful.derive_eq]; exact zmod_counter
 
-/-! ### the two constructors as two functions; `KeyGenerator::check`
+/-! ### the two constructors on the stored bytes; `KeyGenerator::check`
 
-`deriveSender` / `deriveReceiver` (Model/Crypto.lean) are written separately, one per Rust body (`from_random`, line 84;
-`from_key`, line 92); the driver evaluates `c10_derive_sender` with the first and `c10_derive` with the second.
-`keyGenCheck` is the model of `KeyGenerator::check` (byte equality of the compressed keys). -/
+`deriveSender` / `deriveReceiver` (Model/Crypto.lean; what the driver evaluates for `c10_derive_sender` / `c10_derive`) are
+DEFINITIONAL COPIES of `derive` — `rfl`: `Monero.deriveSender_eq_derive`, Proofs/Group.lean — because the two Rust bodies (`from_random`, line 84;
+`from_key`, line 92) are the same expression up to the names of the arguments. No Lean statement can therefore relate "the two
+functions" in a way that `C10_sender_receiver` does not; that `from_random` and `from_key` as COMPILED agree with the model is
+evidence of the differential run only (the harness calls each of them). What the point-level definitions hide, and what is proved
+here, is the panic site: both `Mul` steps go through `PublicKey::point()` (decompress + `expect`) on stored bytes
+(`deriveSenderBytes` / `deriveReceiverBytes`, `mulKeyBytes`). `keyGenCheck` is the model of `KeyGenerator::check` (byte equality of
+the compressed keys). -/
 
-/-- each constructor computes the cofactor-cleared Diffie-Hellman point 8•(scalar•point), for EVERY point -/
+/-- **no panic, and the value, from the stored bytes**: on the encoding of EVERY point (with or without a small-order component)
+neither `point()` call inside `from_random` / `from_key` hits its `expect` — the intermediate `PublicKey` is the compression of a
+point — and `rv` is the encoding of `8•(scalar•point)`; on bytes that the (strict) decoder refuses the model says "panic". -/
 theorem C10_constructors (L : Lawful ops) (r v : ℕ) (V R : P) :
-    deriveSender ops r V = 8 • (r • V) ∧ deriveReceiver ops v R = 8 • (v • R) ∧
-    deriveSender ops r V = Spec.Sender.derivation (specPrims ops) r V ∧
-    deriveReceiver ops v R = Spec.Sender.derivation (specPrims ops) v R ∧
-    deriveSender ops r V = derive ops r V ∧ deriveReceiver ops v R = derive ops v R :=
-  ⟨L.derive_eq r V, L.derive_eq v R, L.derive_eq_spec r V, L.derive_eq_spec v R, rfl, rfl⟩
+    deriveSenderBytes ops r (ops.enc V) = some (ops.enc (8 • (r • V))) ∧
+    deriveReceiverBytes ops v (ops.enc R) = some (ops.enc (8 • (v • R))) ∧
+    deriveSenderBytes ops r (ops.enc V) = some (ops.enc (deriveSender ops r V)) ∧
+    deriveReceiverBytes ops v (ops.enc R) = some (ops.enc (deriveReceiver ops v R)) ∧
+    (∀ b, ops.dec b = none → deriveSenderBytes ops r b = none ∧ deriveReceiverBytes ops v b = none) := by
+  refine ⟨L.deriveSenderBytes_enc r V, L.deriveReceiverBytes_enc v R, ?_, ?_, fun b hb => ?_⟩
+  · rw [L.deriveSenderBytes_enc]; exact congrArg (fun X => some (ops.enc X)) (L.derive_eq r V).symm
+  · rw [L.deriveReceiverBytes_enc]; exact congrArg (fun X => some (ops.enc X)) (L.derive_eq v R).symm
+  · unfold deriveSenderBytes deriveReceiverBytes mulKeyBytes; rw [hb]; exact ⟨rfl, rfl⟩
 
-/-- clause (d) between the two functions: what `from_random(V = v•G, ·, r)` derives is what `from_key((v, ·), R = r•G)`
-derives (`PublicKey::from_private_key` on both sides), and likewise over any base point `B` (subaddresses: `B = S'`) -/
-theorem C10_sender_receiver_split (L : Lawful ops) (r v : ℕ) :
-    deriveSender ops r (pubOf ops v) = deriveReceiver ops v (pubOf ops r) ∧
-    ∀ B : P, deriveSender ops r (ops.smul v B) = deriveReceiver ops v (ops.smul r B) :=
-  C10_sender_receiver L r v
+/-- clause (d) on the stored bytes (corollary of `C10_sender_receiver` and `C10_constructors`): what `from_random(V = v•G, ·, r)`
+stores as `rv` is byte for byte what `from_key((v, ·), R = r•G)` stores, and neither panics; likewise over any base point `B`
+(subaddresses: `B = S'`) -/
+theorem C10_sender_receiver_bytes (L : Lawful ops) (r v : ℕ) (B : P) :
+    deriveSenderBytes ops r (ops.enc (v • B)) = deriveReceiverBytes ops v (ops.enc (r • B)) ∧
+    (deriveSenderBytes ops r (ops.enc (v • B))).isSome = true := by
+  rw [L.deriveSenderBytes_enc, L.deriveReceiverBytes_enc, smul_comm r v]
+  exact ⟨rfl, rfl⟩
 
-/-- `KeyGenerator::check(index, key)` is true for exactly one key: the generator's own `one_time_key(index)` -/
+/-- `KeyGenerator::check(index, key)` is true for exactly one key: the generator's own `one_time_key(index)`. (This only restates
+the injectivity of the encoding — `keyGenCheck` IS the byte comparison `enc key == enc (one_time_key ..)`; nothing about the
+derivation is used. The statement with content is `C10_check_accepts_sender_key`.) -/
 theorem C10_check_iff (L : Lawful ops) (D S : P) (n : ℕ) (key : P) :
     keyGenCheck ops D S n key = true ↔ key = oneTimeKey ops D S n := by
   unfold keyGenCheck
@@ -134,7 +157,9 @@ theorem C10_check_accepts_sender_key (L : Lawful ops) (v r n : ℕ) (d : Spec.Se
   · exact (C10_check_iff L _ _ _ _).2 ((C10_sender_is_spec L r n d).trans h)
   · rw [h]; exact (C10_check_iff L _ _ _ _).1 hk
 
-/-- `check` on a key moved by ANY non-zero point (e.g. a small-order point) is false -/
+/-- `check` on a key moved by ANY non-zero point (e.g. a small-order point) is false. (A generic fact about an equality test in a
+group — `x + T = x → T = 0` — recorded because the differential families "key + small-order point" rely on it; it says nothing
+specific about torsion or about the derivation.) -/
 theorem C10_check_rejects_shifted (L : Lawful ops) (D S T : P) (n : ℕ) (hT : T ≠ 0) :
     keyGenCheck ops D S n (oneTimeKey ops D S n + T) = false := by
   cases h : keyGenCheck ops D S n (oneTimeKey ops D S n + T) with
@@ -163,6 +188,11 @@ theorem C10_ed25519_lawful : Lawful edOps ∧ RefinesEd Drv.refOps := ⟨edOps_l
 theorem C10_derivation_ed25519 (a : ℕ) (B : EdPoint) :
     derive edOps a B = 8 • (a • B) ∧ derive edOps a B = Spec.Sender.derivation (specPrims edOps) a B :=
   C10_derivation edOps_lawful a B
+/-- LIMIT of this statement: it is about points GIVEN in the form `B' + T` with `8•T = 0`. That EVERY curve point has such a
+decomposition with `l•B' = 0` (equivalently `(8·l)•B = 0` for all `B`, i.e. the group has order `8·l`) is NOT proved in this
+development (no point count), so neither "`derive a B` lies in the prime-order subgroup for every accepted key" nor "the second
+equality applies to every accepted key" is established here. The unconditional clause is `C10_derivation_ed25519`:
+`derive a B = 8•(a•B)` for EVERY curve point. -/
 theorem C10_derivation_torsion_ed25519 (a : ℕ) (B' T : EdPoint) (hT : 8 • T = 0) :
     derive edOps a (B' + T) = derive edOps a B' ∧ derive edOps a (B' + T) = (8 * a) • B' :=
   C10_derivation_torsion edOps_lawful a B' T hT
@@ -188,8 +218,8 @@ theorem C10_scalar8_agrees_on_torsion_free_ed25519 :
     type_of% (@C10_scalar8_agrees_on_torsion_free EdPoint _ edOps edOps_lawful) :=
   C10_scalar8_agrees_on_torsion_free edOps_lawful
 theorem C10_constructors_ed25519 : type_of% (@C10_constructors EdPoint _ edOps edOps_lawful) := C10_constructors edOps_lawful
-theorem C10_sender_receiver_split_ed25519 : type_of% (@C10_sender_receiver_split EdPoint _ edOps edOps_lawful) :=
-  C10_sender_receiver_split edOps_lawful
+theorem C10_sender_receiver_bytes_ed25519 : type_of% (@C10_sender_receiver_bytes EdPoint _ edOps edOps_lawful) :=
+  C10_sender_receiver_bytes edOps_lawful
 theorem C10_check_iff_ed25519 : type_of% (@C10_check_iff EdPoint _ edOps edOps_lawful) := C10_check_iff edOps_lawful
 theorem C10_check_accepts_sender_key_ed25519 : type_of% (@C10_check_accepts_sender_key EdPoint _ edOps edOps_lawful) :=
   C10_check_accepts_sender_key edOps_lawful
@@ -227,8 +257,9 @@ theorem C10_scalar8_counterexample_ed25519_order4 :
   intro h
   exact T4_order.2 (by rw [h, smul_zero])
 
-/-- all eight small-order points are there: the multiples `k•T8`, `k < 8`, are pairwise distinct and killed by 8 — so
-"`B = B' + T` for any of the 8 small-order points" in `C10_derivation_torsion_ed25519` is instantiated by each of them -/
+/-- eight small-order points are there: the multiples `k•T8`, `k < 8`, are pairwise distinct and killed by 8 — so
+"`B = B' + T`" in `C10_derivation_torsion_ed25519` is instantiated by each of them. (That these eight are ALL the points killed by 8
+needs the order of the group, which is not proved here; the statement shows eight distinct ones, not that there are no others.) -/
 theorem C10_eight_torsion_points_ed25519 :
     (∀ k : ℕ, 8 • (k • T8) = 0) ∧ (∀ i j : ℕ, i < 8 → j < 8 → i • T8 = j • T8 → i = j) ∧
     ∀ (a k : ℕ) (B' : EdPoint), derive edOps a (B' + k • T8) = derive edOps a B' := by
@@ -246,16 +277,23 @@ theorem C10_no_subgroup_check (B : EdPoint) : Keys.publicAccept (edOps.enc B) = 
 
 /-- **clause (a) from the bytes**: for every 32-byte string `b` that `PublicKey::from_slice` accepts (canonically encoded
 point, no subgroup condition) there is the curve point `B` it encodes, and the derivation from `(a, B)` is `8•(a•B)`;
+the byte-level constructors (both `point()` calls explicit) do not panic on `b` and store the encoding of that point;
 moreover the executable instance that the differential run evaluates (`Drv.refOps`) decodes `b` to a representative of `B` and,
 for every 32-byte scalar `a`, prints exactly the encoding of that group element -/
 theorem C10_derivation_bytes (a : ℕ) (b : Bytes) (h : Keys.publicAccept b = true) :
     ∃ B : EdPoint, edOps.dec b = some B ∧ edOps.enc B = b ∧
       deriveReceiver edOps a B = 8 • (a • B) ∧ deriveSender edOps a B = 8 • (a • B) ∧
+      deriveReceiverBytes edOps a b = some (edOps.enc (8 • (a • B))) ∧
+      deriveSenderBytes edOps a b = some (edOps.enc (8 • (a • B))) ∧
       ∃ Braw : Ed.Pt, Drv.refOps.dec b = some Braw ∧
         (a < 2 ^ 260 → Drv.refOps.enc (deriveReceiver Drv.refOps a Braw) = edOps.enc (8 • (a • B)) ∧
                        Drv.refOps.enc (deriveSender Drv.refOps a Braw) = edOps.enc (8 • (a • B))) := by
   obtain ⟨Braw, hv, h1, h2, h3⟩ := accepted_key b h
-  refine ⟨toPoint Braw hv, h2, h3, edOps_lawful.derive_eq a _, edOps_lawful.derive_eq a _, Braw, h1, fun ha => ?_⟩
+  refine ⟨toPoint Braw hv, h2, h3, edOps_lawful.derive_eq a _, edOps_lawful.derive_eq a _, ?_, ?_, Braw, h1, fun ha => ?_⟩
+  · conv_lhs => rw [← h3]
+    exact edOps_lawful.deriveReceiverBytes_enc a _
+  · conv_lhs => rw [← h3]
+    exact edOps_lawful.deriveSenderBytes_enc a _
   have := refines_enc_derive refOps_refines_edOps a ha Braw hv
   rw [edOps_lawful.derive_eq] at this
   exact ⟨this, this⟩
@@ -263,12 +301,28 @@ theorem C10_derivation_bytes (a : ℕ) (b : Bytes) (h : Keys.publicAccept b = tr
 /-- the hypothesis of `C10_derivation_bytes` holds also for a key with a small-order component -/
 example : Keys.publicAccept t8bytes = true := C10_scalar8_counterexample_ed25519.2.1
 
-/-- **the driver's one-time keys are the theorems' one-time keys**: on valid representatives and 32-byte scalars, what
-`Drv.refOps` prints for `c10_onetime` / `c10_onetime_recv` is the encoding of `oneTimeKey edOps (derive edOps a B) S n` -/
-theorem C10_driver_refines (a : ℕ) (ha : a < 2 ^ 260) (B S : Ed.Pt) (hB : Valid B) (hS : Valid S) (n : ℕ) :
+/-- **the driver's results are the theorems' objects**: on valid representatives and scalars below 2^260 (every 32-byte scalar), what
+`Drv.refOps` prints for `c10_derive*` / `c10_onetime` / `c10_onetime_recv` is the encoding of `derive edOps …` resp.
+`oneTimeKey edOps (derive edOps a B) S n`; the scalar it prints for `c10_rvn` is `rvnScalar edOps (derive edOps a B) n`; and the
+boolean it prints for `c10_check` is `keyGenCheck edOps` on the represented points -/
+theorem C10_driver_refines (a : ℕ) (ha : a < 2 ^ 260) (B S K : Ed.Pt) (hB : Valid B) (hS : Valid S) (hK : Valid K) (n : ℕ) :
     Drv.refOps.enc (derive Drv.refOps a B) = edOps.enc (derive edOps a (toPoint B hB)) ∧
     Drv.refOps.enc (oneTimeKey Drv.refOps (derive Drv.refOps a B) S n)
-      = edOps.enc (oneTimeKey edOps (derive edOps a (toPoint B hB)) (toPoint S hS) n) :=
-  ⟨refines_enc_derive refOps_refines_edOps a ha B hB, refines_enc_oneTimeKey_derive refOps_refines_edOps a ha B S hB hS n⟩
+      = edOps.enc (oneTimeKey edOps (derive edOps a (toPoint B hB)) (toPoint S hS) n) ∧
+    rvnScalar Drv.refOps (derive Drv.refOps a B) n = rvnScalar edOps (derive edOps a (toPoint B hB)) n ∧
+    keyGenCheck Drv.refOps (derive Drv.refOps a B) S n K
+      = keyGenCheck edOps (derive edOps a (toPoint B hB)) (toPoint S hS) n (toPoint K hK) := by
+  obtain ⟨hD, eD⟩ := refines_derive refOps_refines_edOps a ha B hB
+  refine ⟨refines_enc_derive refOps_refines_edOps a ha B hB,
+    refines_enc_oneTimeKey_derive refOps_refines_edOps a ha B S hB hS n, ?_, ?_⟩
+  · rw [refines_rvnScalar refOps_refines_edOps _ hD, eD]
+  · rw [refines_keyGenCheck refOps_refines_edOps _ S K hD hS hK n, eD]
+/-- … and `SubKeyChecker::new(..).check(n, key, R)` (`c10_subcheck`: model side only, used by the C09–C11 families): the index the
+driver prints is the index `Checker.check` returns on the lawful instance -/
+theorem C10_driver_refines_subcheck (v : ℕ) (hv : v < 2 ^ 260) (S K R : Ed.Pt) (hS : Valid S) (hK : Valid K) (hR : Valid R)
+    (a b c d n : ℕ) :
+    (Scan.Checker.new Drv.refOps v S a b c d).check Drv.refOps n K R
+      = (Scan.Checker.new edOps v (toPoint S hS) a b c d).check edOps n (toPoint K hK) (toPoint R hR) :=
+  refines_checkerCheck refOps_refines_edOps v hv S hS a b c d n K R hK hR
 end Ed25519
 end C10
